@@ -347,7 +347,25 @@ func postRules(p *core.Prog, r *core.Report) {
 		nW := 0
 		okW := true
 		why := ""
-		core.EachInstr(f, func(i ssa.Instruction) {
+		// the function and the unexported helpers of its package it calls (an extracted inner loop)
+		body := []*ssa.Function{f}
+		seenF := map[*ssa.Function]bool{f: true}
+		for k := 0; k < len(body); k++ {
+			core.EachInstr(body[k], func(i ssa.Instruction) {
+				if c, ok := i.(ssa.CallInstruction); ok {
+					if h := core.StaticCallee(c); h != nil && !seenF[h] && len(h.Blocks) > 0 && h.Pkg == f.Pkg && h.Object() != nil && !h.Object().Exported() {
+						seenF[h] = true
+						body = append(body, h)
+					}
+				}
+			})
+		}
+		eachBody := func(visit func(i ssa.Instruction)) {
+			for _, g := range body {
+				core.EachInstr(g, visit)
+			}
+		}
+		eachBody(func(i ssa.Instruction) {
 			switch x := i.(type) {
 			case *ssa.MapUpdate:
 				nW++
@@ -402,7 +420,7 @@ func postRules(p *core.Prog, r *core.Report) {
 		}
 		// iterates over the result's FieldSchemata()
 		it := false
-		core.EachInstr(f, func(i ssa.Instruction) {
+		eachBody(func(i ssa.Instruction) {
 			if rg, is := i.(*ssa.Range); is {
 				if _, isC := isCallOf(rg.X, "(*validate.Result).FieldSchemata"); isC {
 					it = true
